@@ -1212,8 +1212,15 @@ class RTCSctpTransport(AsyncIOEventEmitter):
         if chunk.gaps:
             seen = set()
             highest_seen_tsn = chunk.cumulative_tsn
+            # gap blocks can only acknowledge outstanding chunks, do not walk
+            # offsets beyond the highest outstanding TSN
+            max_pos = 0
+            if self._sent_queue:
+                max_pos = (
+                    self._sent_queue[-1].tsn - chunk.cumulative_tsn
+                ) % SCTP_TSN_MODULO
             for gap in chunk.gaps:
-                for pos in range(gap[0], gap[1] + 1):
+                for pos in range(gap[0], min(gap[1], max_pos) + 1):
                     highest_seen_tsn = (chunk.cumulative_tsn + pos) % SCTP_TSN_MODULO
                     seen.add(highest_seen_tsn)
 
